@@ -422,6 +422,8 @@ func Check() *common.Check {
 	return &common.Check{
 		ID:    "C16",
 		Level: "exploration",
+		// every case is recorded before it runs: a fatal error or a hang of the worker is attributed to it
+		CrashSafe: true,
 		Rule: "18 payloads built from the documented ones (4 tautologies, 3 time-delay calls, 3 dangerous calls, 4 other spellings of those names, 4 nestings of one call inside the arguments of another) x every expression hole of the model grammar (condition payloads only in the 17 condition holes, each also as operand of AND / OR / NOT and inside redundant parentheses; call payloads in all 49 holes) " +
 			"x 3 layouts (natural, one space everywhere, one lexeme per line with lower-case keywords and CRLF) x 4 severity thresholds x 3 scanner APIs (tree Scan, ScanSQL, the CLI text scanner); thorough adds every payload inside a second level of nesting (hole in hole). " +
 			"UNION probes (2/3/5 NULL columns; 9 system tables; 6 arms mixing NULLs with columns and call payloads) x UNION / UNION ALL x 8 hosts (top level, end of a chain, IN / EXISTS sub-query, CTE body, INSERT..SELECT, CREATE VIEW, second statement) x 3 spellings of the names (lower, upper, mixed) x 3 layouts x 4 thresholds x 3 APIs. " +
